@@ -182,3 +182,77 @@ def gauss_delta_exact(rho, eps):
         return math.exp(a)
     d = math.exp(a) - math.exp(b) if a < 700 else float('inf')
     return max(d, 0.0)
+
+
+# ----------------------------------------------------------------------------- convexified region free energy
+
+def region_closure(cliques):
+    """All distinct attribute sets obtained from the cliques by repeated non-empty intersection."""
+    regs = set(frozenset(c) for c in cliques)
+    changed = True
+    while changed:
+        changed = False
+        for a, b in itertools.combinations(list(regs), 2):
+            z = a & b
+            if z and z not in regs:
+                regs.add(z); changed = True
+    return regs
+
+
+def convex_free_energy(attrs, sizes, cliques, theta):
+    """max  sum_r <theta_r, b_r> + sum_r H(b_r)   s.t.  b_r normalised and b_p marginalises to b_r for every r < p.
+    theta: {frozenset: (attr list, ndarray)} for any subset of the regions.  Solved through its smooth dual with
+    L-BFGS/BFGS.  Returns ({frozenset: (attr list, belief ndarray)}, dual gradient norm, primal objective)."""
+    from scipy.optimize import minimize
+    regs = sorted(region_closure(cliques), key=lambda s: (len(s), sorted(s)))
+    order = {r: [a for a in attrs if a in r] for r in regs}          # own canonical layout: domain order
+    shp = {r: [sizes[a] for a in order[r]] for r in regs}
+    th = {}
+    for r in regs:
+        t = np.zeros(shp[r])
+        if r in theta:
+            fa, fv = theta[r]
+            t = t + expand_to(order[r], shp[r], list(fa), np.asarray(fv, dtype=float))
+        th[r] = t
+    # Hasse (cover) edges p -> r
+    edges = [(p, r) for p in regs for r in regs if r < p and not any(r < m and m < p for m in regs)]
+    offs, n = {}, 0
+    for e in edges:
+        offs[e] = n; n += int(np.prod(shp[e[1]]))
+
+    def beliefs(lam):
+        B, val = {}, 0.0
+        for r in regs:
+            a = th[r].copy()
+            for (p, c) in edges:
+                if c == r:
+                    a = a + lam[offs[p, c]:offs[p, c] + a.size].reshape(shp[r])
+                if p == r:
+                    l = lam[offs[p, c]:offs[p, c] + int(np.prod(shp[c]))].reshape(shp[c])
+                    a = a - expand_to(order[r], shp[r], order[c], l)
+            z = lse(a)
+            val += z
+            B[r] = np.exp(a - z)
+        return B, val
+
+    def fg(lam):
+        B, val = beliefs(lam)
+        g = np.zeros(n)
+        for (p, c) in edges:
+            diff = B[c] - marg(B[p], order[p], order[c])
+            g[offs[p, c]:offs[p, c] + diff.size] = diff.flatten()
+        return val, g
+
+    if n == 0:
+        B, val = beliefs(np.zeros(0))
+        gn = 0.0
+    else:
+        res = minimize(fg, np.zeros(n), jac=True, method='L-BFGS-B', options={'maxiter': 5000, 'ftol': 1e-16, 'gtol': 1e-11, 'maxcor': 30})
+        res = minimize(fg, res.x, jac=True, method='BFGS', options={'maxiter': 2000, 'gtol': 1e-11})
+        B, val = beliefs(res.x)
+        gn = float(np.max(np.abs(fg(res.x)[1])))
+    prim = 0.0
+    for r in regs:
+        b = B[r]
+        prim += float(np.sum(th[r] * b)) - float(np.sum(np.where(b > 0, b * np.log(np.where(b > 0, b, 1.0)), 0.0)))
+    return {r: (order[r], B[r]) for r in regs}, gn, prim
